@@ -98,6 +98,29 @@ func (l *Loaded) findFunc(pkgPath, name string) *ssa.Function {
 	return sp.Func(name)
 }
 
+// isIfaceMethod: name is Type.Method where Type is an interface type of the package declaring Method.
+func (l *Loaded) isIfaceMethod(pkgPath, name string) bool {
+	sp := l.spkgs[pkgPath]
+	i := strings.Index(name, ".")
+	if sp == nil || i < 0 {
+		return false
+	}
+	obj := sp.Pkg.Scope().Lookup(name[:i])
+	if obj == nil {
+		return false
+	}
+	it, ok := obj.Type().Underlying().(*types.Interface)
+	if !ok {
+		return false
+	}
+	for k := 0; k < it.NumMethods(); k++ {
+		if it.Method(k).Name() == name[i+1:] {
+			return true
+		}
+	}
+	return false
+}
+
 // contractFiles returns the comment-only contract files of a package
 // (*_contracts_verif.go) with their //@ lines.
 func (l *Loaded) contractLines(pkgPath string) (lines []specLine) {
